@@ -218,6 +218,7 @@ package sod
 //@ ensures [C03 satisfy.class] err == nil || err == ErrConstraintUnique
 //@ modifies nothing
 //@ allocates Elem[*indexedField]
+//@ allocates Constraints.Index, Constraints.Lower, Constraints.Unique, Constraints.Upper
 
 //@ func (*fieldIndex).Insert
 //@ serves C02 C03 C19 C20
@@ -344,6 +345,7 @@ package sod
 //@ loop 1 invariant [frame] preserved(Elem[*indexedField], indexedField.Value, indexedField.ObjectId)
 //@ modifies nothing
 //@ allocates indexedField.Value, indexedField.ObjectId, Elem[*indexedField], Elem[interface{}]
+//@ allocates Constraints.Index, Constraints.Lower, Constraints.Unique, Constraints.Upper
 
 //@ func (*objIndex).insertOrUpdate
 //@ serves C01 C02 C03 C06 C07 C19 C20
@@ -582,12 +584,14 @@ package sod
 //@ requires s != nil
 //@ ensures [C18 filename] result == uuid + s.Extension + ite(s.Compress, ".gz", "")
 //@ pure
+//@ allocates Elem[interface{}]
 
 //@ func (*Schema).filename
 //@ serves C01 C12 C18
 //@ requires s != nil && o != nil
 //@ ensures [C18 filename] result == o.uuid + s.Extension + ite(s.Compress, ".gz", "")
 //@ pure
+//@ allocates Elem[interface{}]
 
 //@ func (*Schema).isUUIDIndexed
 //@ serves C01 C11
@@ -608,6 +612,7 @@ package sod
 //@ requires db != nil && of != nil
 //@ ensures [C18 odir] result == cdirf(db.root, itemOf(dyntype(of)))
 //@ pure
+//@ allocates Elem[string]
 
 //@ func (*DB).oPath
 //@ serves C01 C12 C18
@@ -615,6 +620,7 @@ package sod
 //@ requires db != nil && of != nil && s != nil
 //@ ensures [C18 opath] path == opathf(cdirf(db.root, itemOf(dyntype(of))), of.uuid, s.Extension, s.Compress)
 //@ pure
+//@ allocates Elem[string]
 
 // ---- file helpers: contracts over the ghost file system. Bodies use os/io/gzip/json; their
 // ---- contracts are assumed here (trusted) and listed in the evidence.
@@ -793,6 +799,7 @@ package sod
 //@ ensures [C18 wd.ok] imp(err == nil, FSk == upd(old(FSk), opath(db, s, o.uuid), 1) && FSc == upd(old(FSc), opath(db, s, o.uuid), datac(data)))
 //@ ensures [C06 wd.fail] imp(err != nil, FSk == old(FSk) && FSc == old(FSc) && isStorage(err))
 //@ modifies Ghost.FSk, Ghost.FSc
+//@ allocates Elem[string]
 
 //@ func (*DB).initialize
 //@ serves C01 C06 C07
@@ -824,6 +831,7 @@ package sod
 //@ ensures [C05 save.fail] imp(err != nil, FSk == old(FSk) && FSc == old(FSc) && isStorage(err))
 //@ modifies Ghost.FSk, Ghost.FSc
 //@ allocates Elem[uint8]
+//@ allocates Elem[string]
 
 //@ func (*DB).commit
 //@ serves C01 C04 C05 C08 C09 C10
@@ -893,6 +901,7 @@ package sod
 //@ ensures [C01 del.table] db.schemas == old(db.schemas) && forallk(t, string, imp(t != T, has(db.schemas, t) == old(has(db.schemas, t)) && db.schemas[t] == old(db.schemas[t]))) && imp(old(has(db.schemas, T)), has(db.schemas, T) && db.schemas[T] == old(db.schemas[T]) && db.schemas[T].ObjectIndex == old(db.schemas[T].ObjectIndex) && db.schemas[T].coherent == old(db.schemas[T].coherent))
 //@ modifies Ghost.FSk, Async.routineStarted, MapDom[string,*Schema]@db.schemas, MapVal[string,*Schema]@db.schemas, MapCard[string,*Schema]@db.schemas, MapDom[string,Object], MapCard[string,Object], objIndex.ver, MapDom[string,uint64], MapVal[string,uint64], MapCard[string,uint64], MapDom[uint64,string], MapVal[uint64,string], MapCard[uint64,string], fieldIndex.Index, fieldIndex.pos, MapDom[uint64,*indexedField], MapVal[uint64,*indexedField], MapCard[uint64,*indexedField], Elem[*indexedField]
 //@ allocates Schema.db, Schema.object, Schema.transformers, Schema.Fields, Schema.Extension, Schema.Compress, Schema.Cache, Schema.AsyncWrites, Schema.ObjectIndex, Schema.coherent, Async.routineStarted, Async.Enable, Async.Threshold, Async.Timeout, objIndex.i, objIndex.uuids, objIndex.Fields, objIndex.ObjectIds, objIndex.otype, objIndex.ver, MapDom[string,uint64], MapVal[string,uint64], MapCard[string,uint64], MapDom[uint64,string], MapVal[uint64,string], MapCard[uint64,string], MapDom[string,*fieldIndex], MapVal[string,*fieldIndex], MapCard[string,*fieldIndex], fieldIndex.Name, fieldIndex.Cast, fieldIndex.Constraints, fieldIndex.Index, fieldIndex.objectIds, fieldIndex.nameSplit, fieldIndex.pos, MapDom[uint64,*indexedField], MapVal[uint64,*indexedField], MapCard[uint64,*indexedField], Elem[*indexedField], indexedField.Value, indexedField.ObjectId, Elem[string]
+//@ allocates Elem[interface{}]
 
 // ---- handle lock (typestate) and exported API -------------------------------------
 
@@ -936,6 +945,7 @@ package sod
 //@ serves C15
 //@ ensures [C15 invalid-class] result != nil && errIs(result, ErrInvalidObject) && !isStorage(result)
 //@ pure
+//@ allocates Elem[interface{}]
 
 //@ func (*DB).Get
 //@ serves C01 C08 C09 C12 C14
@@ -949,6 +959,7 @@ package sod
 //@ ensures [C01 Get.wf] wfDB(db)
 //@ ensures [C01 Get.readonly] FSk == old(FSk) && FSc == old(FSc)
 //@ modifies Ghost.ACQ_H, MapDom[string,*Schema]@db.schemas, MapVal[string,*Schema]@db.schemas, MapCard[string,*Schema]@db.schemas, Async.routineStarted, Object.content@in, MapDom[string,*objectMap]@db.cache.m, MapVal[string,*objectMap]@db.cache.m, MapCard[string,*objectMap]@db.cache.m, MapDom[string,Object], MapVal[string,Object], MapCard[string,Object]
+//@ allocates Async.Enable, Async.Threshold, Async.Timeout, Elem[*indexedField], Elem[string], MapCard[string,*fieldIndex], MapCard[string,uint64], MapCard[uint64,*indexedField], MapCard[uint64,string], MapDom[string,*fieldIndex], MapDom[string,uint64], MapDom[uint64,*indexedField], MapDom[uint64,string], MapVal[string,*fieldIndex], MapVal[string,uint64], MapVal[uint64,*indexedField], MapVal[uint64,string], Object.uuid, Schema.AsyncWrites, Schema.Cache, Schema.Compress, Schema.Extension, Schema.Fields, Schema.ObjectIndex, Schema.coherent, Schema.db, Schema.object, Schema.transformers, fieldIndex.Cast, fieldIndex.Constraints.Index, fieldIndex.Constraints.Lower, fieldIndex.Constraints.Unique, fieldIndex.Constraints.Upper, fieldIndex.Index, fieldIndex.Name, fieldIndex.nameSplit, fieldIndex.objectIds, fieldIndex.pos, indexedField.ObjectId, indexedField.Value, objIndex.Fields, objIndex.ObjectIds, objIndex.i, objIndex.otype, objIndex.uuids, objIndex.ver, objectMap.RWMutex, objectMap.m
 
 //@ func (*DB).GetByUUID
 //@ serves C01 C08 C09 C12
@@ -960,6 +971,7 @@ package sod
 //@ ensures [C01 GetByUUID.absent] imp(has(db.schemas, T) && db.schemas[T].coherent && !has(db.schemas[T].ObjectIndex.uuids, uuid), err != nil && !isStorage(err))
 //@ ensures [C01 GetByUUID.wf] wfDB(db)
 //@ modifies Ghost.ACQ_H, Object.uuid@in, MapDom[string,*Schema]@db.schemas, MapVal[string,*Schema]@db.schemas, MapCard[string,*Schema]@db.schemas, Async.routineStarted, Object.content@in, MapDom[string,*objectMap]@db.cache.m, MapVal[string,*objectMap]@db.cache.m, MapCard[string,*objectMap]@db.cache.m, MapDom[string,Object], MapVal[string,Object], MapCard[string,Object]
+//@ allocates Async.Enable, Async.Threshold, Async.Timeout, Elem[*indexedField], Elem[string], MapCard[string,*fieldIndex], MapCard[string,uint64], MapCard[uint64,*indexedField], MapCard[uint64,string], MapDom[string,*fieldIndex], MapDom[string,uint64], MapDom[uint64,*indexedField], MapDom[uint64,string], MapVal[string,*fieldIndex], MapVal[string,uint64], MapVal[uint64,*indexedField], MapVal[uint64,string], Schema.AsyncWrites, Schema.Cache, Schema.Compress, Schema.Extension, Schema.Fields, Schema.ObjectIndex, Schema.coherent, Schema.db, Schema.object, Schema.transformers, fieldIndex.Cast, fieldIndex.Constraints.Index, fieldIndex.Constraints.Lower, fieldIndex.Constraints.Unique, fieldIndex.Constraints.Upper, fieldIndex.Index, fieldIndex.Name, fieldIndex.nameSplit, fieldIndex.objectIds, fieldIndex.pos, indexedField.ObjectId, indexedField.Value, objIndex.Fields, objIndex.ObjectIds, objIndex.i, objIndex.otype, objIndex.uuids, objIndex.ver, objectMap.RWMutex, objectMap.m
 
 //@ func (*DB).getByUUID
 //@ serves C01 C08 C09 C12
@@ -973,6 +985,7 @@ package sod
 //@ ensures [C01 getByUUID.readonly] FSk == old(FSk) && FSc == old(FSc) && asyncwSame(db)
 //@ ensures [C01 getByUUID.others] db.schemas == old(db.schemas) && forallk(t, string, imp(t != T, has(db.schemas, t) == old(has(db.schemas, t)) && db.schemas[t] == old(db.schemas[t]))) && imp(old(has(db.schemas, T)), has(db.schemas, T) && db.schemas[T] == old(db.schemas[T]))
 //@ modifies Object.uuid@in, MapDom[string,*Schema]@db.schemas, MapVal[string,*Schema]@db.schemas, MapCard[string,*Schema]@db.schemas, Async.routineStarted, Object.content@in, MapDom[string,*objectMap]@db.cache.m, MapVal[string,*objectMap]@db.cache.m, MapCard[string,*objectMap]@db.cache.m, MapDom[string,Object], MapVal[string,Object], MapCard[string,Object]
+//@ allocates Async.Enable, Async.Threshold, Async.Timeout, Elem[*indexedField], Elem[string], MapCard[string,*fieldIndex], MapCard[string,uint64], MapCard[uint64,*indexedField], MapCard[uint64,string], MapDom[string,*fieldIndex], MapDom[string,uint64], MapDom[uint64,*indexedField], MapDom[uint64,string], MapVal[string,*fieldIndex], MapVal[string,uint64], MapVal[uint64,*indexedField], MapVal[uint64,string], Schema.AsyncWrites, Schema.Cache, Schema.Compress, Schema.Extension, Schema.Fields, Schema.ObjectIndex, Schema.coherent, Schema.db, Schema.object, Schema.transformers, fieldIndex.Cast, fieldIndex.Constraints.Index, fieldIndex.Constraints.Lower, fieldIndex.Constraints.Unique, fieldIndex.Constraints.Upper, fieldIndex.Index, fieldIndex.Name, fieldIndex.nameSplit, fieldIndex.objectIds, fieldIndex.pos, indexedField.ObjectId, indexedField.Value, objIndex.Fields, objIndex.ObjectIds, objIndex.i, objIndex.otype, objIndex.uuids, objIndex.ver, objectMap.RWMutex, objectMap.m
 
 //@ func (*DB).Exist
 //@ serves C01 C08 C09 C10 C12
@@ -983,6 +996,7 @@ package sod
 //@ ensures [C01 Exist.wf] wfDB(db)
 //@ ensures [C01 Exist.readonly] FSk == old(FSk) && FSc == old(FSc)
 //@ modifies Ghost.ACQ_H, MapDom[string,*Schema]@db.schemas, MapVal[string,*Schema]@db.schemas, MapCard[string,*Schema]@db.schemas, Async.routineStarted
+//@ allocates Async.Enable, Async.Threshold, Async.Timeout, Elem[*indexedField], Elem[string], MapCard[string,*fieldIndex], MapCard[string,uint64], MapCard[uint64,*indexedField], MapCard[uint64,string], MapDom[string,*fieldIndex], MapDom[string,uint64], MapDom[uint64,*indexedField], MapDom[uint64,string], MapVal[string,*fieldIndex], MapVal[string,uint64], MapVal[uint64,*indexedField], MapVal[uint64,string], Schema.AsyncWrites, Schema.Cache, Schema.Compress, Schema.Extension, Schema.Fields, Schema.ObjectIndex, Schema.coherent, Schema.db, Schema.object, Schema.transformers, fieldIndex.Cast, fieldIndex.Constraints.Index, fieldIndex.Constraints.Lower, fieldIndex.Constraints.Unique, fieldIndex.Constraints.Upper, fieldIndex.Index, fieldIndex.Name, fieldIndex.nameSplit, fieldIndex.objectIds, fieldIndex.pos, indexedField.ObjectId, indexedField.Value, objIndex.Fields, objIndex.ObjectIds, objIndex.i, objIndex.otype, objIndex.uuids, objIndex.ver
 
 //@ func (*DB).InsertOrUpdate
 //@ serves C01 C04 C06 C08 C09 C10 C12 C15
@@ -1003,6 +1017,7 @@ package sod
 //@ ensures [C17 IOU.unknown-schema-no-write] imp(err != nil && !has(db.schemas, T), FSk == old(FSk) && FSc == old(FSc))
 //@ ensures [C01 IOU.wf] imp(!isStorage(err), wfDB(db))
 //@ modifies Ghost.ACQ_H, Object.content@o, Object.stage@o, Object.uuid@o, Ghost.FSk, Ghost.FSc, Async.routineStarted, MapDom[string,*Schema]@db.schemas, MapVal[string,*Schema]@db.schemas, MapCard[string,*Schema]@db.schemas, MapDom[string,*objectMap], MapVal[string,*objectMap], MapCard[string,*objectMap], MapDom[string,Object], MapVal[string,Object], MapCard[string,Object], objIndex.i, objIndex.ver, MapDom[string,uint64], MapVal[string,uint64], MapCard[string,uint64], MapDom[uint64,string], MapVal[uint64,string], MapCard[uint64,string], fieldIndex.Index, fieldIndex.pos, MapDom[uint64,*indexedField], MapVal[uint64,*indexedField], MapCard[uint64,*indexedField], Elem[*indexedField]
+//@ allocates Async.Enable, Async.Threshold, Async.Timeout, Elem[interface{}], Elem[string], Elem[uint8], MapCard[string,*fieldIndex], MapDom[string,*fieldIndex], MapVal[string,*fieldIndex], Schema.AsyncWrites, Schema.Cache, Schema.Compress, Schema.Extension, Schema.Fields, Schema.ObjectIndex, Schema.coherent, Schema.db, Schema.object, Schema.transformers, fieldIndex.Cast, fieldIndex.Constraints.Index, fieldIndex.Constraints.Lower, fieldIndex.Constraints.Unique, fieldIndex.Constraints.Upper, fieldIndex.Name, fieldIndex.nameSplit, fieldIndex.objectIds, indexedField.ObjectId, indexedField.Value, objIndex.Fields, objIndex.ObjectIds, objIndex.otype, objIndex.uuids, objectMap.RWMutex, objectMap.m
 
 //@ func (*DB).Delete
 //@ serves C01 C04 C05 C08 C09 C10 C12
@@ -1019,6 +1034,7 @@ package sod
 //@ ensures [C01 Del.wf-base] wfDBbase(db)
 //@ ensures [C01 Del.wf] imp(!isStorage(lastErr), collsOK(db))
 //@ modifies Ghost.ACQ_H, Ghost.FSk, Ghost.FSc, Async.routineStarted, MapDom[string,*Schema]@db.schemas, MapVal[string,*Schema]@db.schemas, MapCard[string,*Schema]@db.schemas, MapDom[string,Object], MapCard[string,Object], objIndex.ver, MapDom[string,uint64], MapVal[string,uint64], MapCard[string,uint64], MapDom[uint64,string], MapVal[uint64,string], MapCard[uint64,string], fieldIndex.Index, fieldIndex.pos, MapDom[uint64,*indexedField], MapVal[uint64,*indexedField], MapCard[uint64,*indexedField], Elem[*indexedField]
+//@ allocates Async.Enable, Async.Threshold, Async.Timeout, Elem[string], Elem[uint8], MapCard[string,*fieldIndex], MapDom[string,*fieldIndex], MapVal[string,*fieldIndex], Schema.AsyncWrites, Schema.Cache, Schema.Compress, Schema.Extension, Schema.Fields, Schema.ObjectIndex, Schema.coherent, Schema.db, Schema.object, Schema.transformers, fieldIndex.Cast, fieldIndex.Constraints.Index, fieldIndex.Constraints.Lower, fieldIndex.Constraints.Unique, fieldIndex.Constraints.Upper, fieldIndex.Name, fieldIndex.nameSplit, fieldIndex.objectIds, indexedField.ObjectId, indexedField.Value, objIndex.Fields, objIndex.ObjectIds, objIndex.i, objIndex.otype, objIndex.uuids
 
 //@ func (*DB).Commit
 //@ serves C04 C08 C09
@@ -1029,6 +1045,7 @@ package sod
 //@ ensures [C04 Commit.ok] imp(err == nil, has(db.schemas, stypeOf(dyntype(o))) && committed(db, db.schemas[stypeOf(dyntype(o))]))
 //@ ensures [C01 Commit.wf] wfDB(db)
 //@ modifies Ghost.ACQ_H, Ghost.FSk, Ghost.FSc, MapDom[string,*Schema]@db.schemas, MapVal[string,*Schema]@db.schemas, MapCard[string,*Schema]@db.schemas, Async.routineStarted
+//@ allocates Async.Enable, Async.Threshold, Async.Timeout, Elem[*indexedField], Elem[string], Elem[uint8], MapCard[string,*fieldIndex], MapCard[string,uint64], MapCard[uint64,*indexedField], MapCard[uint64,string], MapDom[string,*fieldIndex], MapDom[string,uint64], MapDom[uint64,*indexedField], MapDom[uint64,string], MapVal[string,*fieldIndex], MapVal[string,uint64], MapVal[uint64,*indexedField], MapVal[uint64,string], Schema.AsyncWrites, Schema.Cache, Schema.Compress, Schema.Extension, Schema.Fields, Schema.ObjectIndex, Schema.coherent, Schema.db, Schema.object, Schema.transformers, fieldIndex.Cast, fieldIndex.Constraints.Index, fieldIndex.Constraints.Lower, fieldIndex.Constraints.Unique, fieldIndex.Constraints.Upper, fieldIndex.Index, fieldIndex.Name, fieldIndex.nameSplit, fieldIndex.objectIds, fieldIndex.pos, indexedField.ObjectId, indexedField.Value, objIndex.Fields, objIndex.ObjectIds, objIndex.i, objIndex.otype, objIndex.uuids, objIndex.ver
 
 // ---- iteration ----------------------------------------------------------------
 
@@ -1080,6 +1097,7 @@ package sod
 //@ ensures [C01 next.others] db.schemas == old(db.schemas) && forallk(t, string, imp(t != T, has(db.schemas, t) == old(has(db.schemas, t)) && db.schemas[t] == old(db.schemas[t]))) && imp(old(has(db.schemas, T)), has(db.schemas, T) && db.schemas[T] == old(db.schemas[T]))
 //@ modifies iterator.i@it, MapDom[string,*Schema]@it.db.schemas, MapVal[string,*Schema]@it.db.schemas, MapCard[string,*Schema]@it.db.schemas, Async.routineStarted, MapDom[string,*objectMap]@it.db.cache.m, MapVal[string,*objectMap]@it.db.cache.m, MapCard[string,*objectMap]@it.db.cache.m, MapDom[string,Object], MapVal[string,Object], MapCard[string,Object]
 //@ allocates Object.content, Object.uuid, Object.stage, objectMap.m, objectMap.RWMutex
+//@ allocates Async.Enable, Async.Threshold, Async.Timeout, Elem[*indexedField], Elem[string], MapCard[string,*fieldIndex], MapCard[string,uint64], MapCard[uint64,*indexedField], MapCard[uint64,string], MapDom[string,*fieldIndex], MapDom[string,uint64], MapDom[uint64,*indexedField], MapDom[uint64,string], MapVal[string,*fieldIndex], MapVal[string,uint64], MapVal[uint64,*indexedField], MapVal[uint64,string], Schema.AsyncWrites, Schema.Cache, Schema.Compress, Schema.Extension, Schema.Fields, Schema.ObjectIndex, Schema.coherent, Schema.db, Schema.object, Schema.transformers, fieldIndex.Cast, fieldIndex.Constraints.Index, fieldIndex.Constraints.Lower, fieldIndex.Constraints.Unique, fieldIndex.Constraints.Upper, fieldIndex.Index, fieldIndex.Name, fieldIndex.nameSplit, fieldIndex.objectIds, fieldIndex.pos, indexedField.ObjectId, indexedField.Value, objIndex.Fields, objIndex.ObjectIds, objIndex.i, objIndex.otype, objIndex.uuids, objIndex.ver
 
 // ---- searches: result handling (C13) ---------------------------------------------
 
@@ -1133,6 +1151,7 @@ package sod
 //@ loop 1 decreases len(s.fields) - rangeindex
 //@ modifies MapDom[string,*Schema]@s.db.schemas, MapVal[string,*Schema]@s.db.schemas, MapCard[string,*Schema]@s.db.schemas, Async.routineStarted
 //@ allocates Elem[string], iterator.db, iterator.t, iterator.i, iterator.reverse, iterator.uuids, iterator.tdyn
+//@ allocates Async.Enable, Async.Threshold, Async.Timeout, Elem[*indexedField], MapCard[string,*fieldIndex], MapCard[string,uint64], MapCard[uint64,*indexedField], MapCard[uint64,string], MapDom[string,*fieldIndex], MapDom[string,uint64], MapDom[uint64,*indexedField], MapDom[uint64,string], MapVal[string,*fieldIndex], MapVal[string,uint64], MapVal[uint64,*indexedField], MapVal[uint64,string], Schema.AsyncWrites, Schema.Cache, Schema.Compress, Schema.Extension, Schema.Fields, Schema.ObjectIndex, Schema.coherent, Schema.db, Schema.object, Schema.transformers, fieldIndex.Cast, fieldIndex.Constraints.Index, fieldIndex.Constraints.Lower, fieldIndex.Constraints.Unique, fieldIndex.Constraints.Upper, fieldIndex.Index, fieldIndex.Name, fieldIndex.nameSplit, fieldIndex.objectIds, fieldIndex.pos, indexedField.ObjectId, indexedField.Value, objIndex.Fields, objIndex.ObjectIds, objIndex.i, objIndex.otype, objIndex.uuids, objIndex.ver
 
 //@ func (*Search).collect
 //@ serves C01 C08 C09 C13 C20
@@ -1162,6 +1181,7 @@ package sod
 //@ loop 1 invariant [current] imp(err == nil && db.schemas[T].coherent, o != nil && o.uuid == it.uuids[ite(s.reverse, m-1-len(out), len(out))])
 //@ modifies Search.limit@s, iterator.i, iterator.reverse, MapDom[string,*Schema]@s.db.schemas, MapVal[string,*Schema]@s.db.schemas, MapCard[string,*Schema]@s.db.schemas, Async.routineStarted, MapDom[string,*objectMap], MapVal[string,*objectMap], MapCard[string,*objectMap], MapDom[string,Object], MapVal[string,Object], MapCard[string,Object]
 //@ allocates Elem[string], Elem[Object], iterator.db, iterator.t, iterator.i, iterator.reverse, iterator.uuids, iterator.tdyn, Object.content, Object.uuid, Object.stage, objectMap.m, objectMap.RWMutex
+//@ allocates Async.Enable, Async.Threshold, Async.Timeout, Elem[*indexedField], MapCard[string,*fieldIndex], MapCard[string,uint64], MapCard[uint64,*indexedField], MapCard[uint64,string], MapDom[string,*fieldIndex], MapDom[string,uint64], MapDom[uint64,*indexedField], MapDom[uint64,string], MapVal[string,*fieldIndex], MapVal[string,uint64], MapVal[uint64,*indexedField], MapVal[uint64,string], Schema.AsyncWrites, Schema.Cache, Schema.Compress, Schema.Extension, Schema.Fields, Schema.ObjectIndex, Schema.coherent, Schema.db, Schema.object, Schema.transformers, fieldIndex.Cast, fieldIndex.Constraints.Index, fieldIndex.Constraints.Lower, fieldIndex.Constraints.Unique, fieldIndex.Constraints.Upper, fieldIndex.Index, fieldIndex.Name, fieldIndex.nameSplit, fieldIndex.objectIds, fieldIndex.pos, indexedField.ObjectId, indexedField.Value, objIndex.Fields, objIndex.ObjectIds, objIndex.i, objIndex.otype, objIndex.uuids, objIndex.ver
 
 //@ func (*Search).one
 //@ serves C01 C08 C09 C13
@@ -1177,6 +1197,7 @@ package sod
 //@ ensures [C01 one.wf] imp(old(s.err) == nil, wfDB(db))
 //@ ensures [C17 one.readonly] FSk == old(FSk) && FSc == old(FSc)
 //@ modifies Search.limit@s, iterator.i, iterator.reverse, MapDom[string,*Schema]@s.db.schemas, MapVal[string,*Schema]@s.db.schemas, MapCard[string,*Schema]@s.db.schemas, Async.routineStarted, MapDom[string,*objectMap], MapVal[string,*objectMap], MapCard[string,*objectMap], MapDom[string,Object], MapVal[string,Object], MapCard[string,Object]
+//@ allocates Elem[Object], Elem[string], Object.content, Object.stage, Object.uuid, iterator.db, iterator.t, iterator.tdyn, iterator.uuids, objectMap.RWMutex, objectMap.m
 
 //@ func (*Search).Collect
 //@ serves C01 C08 C09 C13 C20
@@ -1191,6 +1212,8 @@ package sod
 //@ ensures [C13 C20 Collect.order] imp(old(s.err) == nil && has(db.schemas, T) && db.schemas[T].coherent, forall(k, 0, len(out), imp(out[k] != nil, out[k].uuid == ite(has(db.schemas[T].ObjectIndex.ObjectIds, s.fields[ite(s.reverse, m-1-k, k)].ObjectId), db.schemas[T].ObjectIndex.ObjectIds[s.fields[ite(s.reverse, m-1-k, k)].ObjectId], ""))))
 //@ ensures [C17 Collect.readonly] FSk == old(FSk) && FSc == old(FSc)
 //@ modifies Ghost.ACQ_H, Search.limit@s, iterator.i, iterator.reverse, MapDom[string,*Schema]@s.db.schemas, MapVal[string,*Schema]@s.db.schemas, MapCard[string,*Schema]@s.db.schemas, Async.routineStarted, MapDom[string,*objectMap], MapVal[string,*objectMap], MapCard[string,*objectMap], MapDom[string,Object], MapVal[string,Object], MapCard[string,Object]
+//@ allocates Elem[Object], Elem[string], Object.content, Object.stage, Object.uuid, iterator.db, iterator.t, iterator.tdyn, iterator.uuids, objectMap.RWMutex, objectMap.m
+//@ allocates Async.Enable, Async.Threshold, Async.Timeout, Elem[*indexedField], MapCard[string,*fieldIndex], MapCard[string,uint64], MapCard[uint64,*indexedField], MapCard[uint64,string], MapDom[string,*fieldIndex], MapDom[string,uint64], MapDom[uint64,*indexedField], MapDom[uint64,string], MapVal[string,*fieldIndex], MapVal[string,uint64], MapVal[uint64,*indexedField], MapVal[uint64,string], Schema.AsyncWrites, Schema.Cache, Schema.Compress, Schema.Extension, Schema.Fields, Schema.ObjectIndex, Schema.coherent, Schema.db, Schema.object, Schema.transformers, fieldIndex.Cast, fieldIndex.Constraints.Index, fieldIndex.Constraints.Lower, fieldIndex.Constraints.Unique, fieldIndex.Constraints.Upper, fieldIndex.Index, fieldIndex.Name, fieldIndex.nameSplit, fieldIndex.objectIds, fieldIndex.pos, indexedField.ObjectId, indexedField.Value, objIndex.Fields, objIndex.ObjectIds, objIndex.i, objIndex.otype, objIndex.uuids, objIndex.ver
 
 //@ func (*Search).One
 //@ serves C01 C08 C09 C13
@@ -1203,6 +1226,7 @@ package sod
 //@ ensures [C13 One.none] imp(old(s.err) == nil && m == 0, err == ErrNoObjectFound)
 //@ ensures [C13 One.first] imp(err == nil && has(db.schemas, T) && db.schemas[T].coherent, o != nil && o.uuid == ite(has(db.schemas[T].ObjectIndex.ObjectIds, s.fields[ite(s.reverse, m-1, 0)].ObjectId), db.schemas[T].ObjectIndex.ObjectIds[s.fields[ite(s.reverse, m-1, 0)].ObjectId], ""))
 //@ modifies Ghost.ACQ_H, Search.limit@s, iterator.i, iterator.reverse, MapDom[string,*Schema]@s.db.schemas, MapVal[string,*Schema]@s.db.schemas, MapCard[string,*Schema]@s.db.schemas, Async.routineStarted, MapDom[string,*objectMap], MapVal[string,*objectMap], MapCard[string,*objectMap], MapDom[string,Object], MapVal[string,Object], MapCard[string,Object]
+//@ allocates Elem[Object], Elem[string], Object.content, Object.stage, Object.uuid, iterator.db, iterator.t, iterator.tdyn, iterator.uuids, objectMap.RWMutex, objectMap.m
 
 //@ func (*DB).iterator
 //@ serves C01 C08 C09 C12
@@ -1227,6 +1251,7 @@ package sod
 //@ loop 1 invariant [visited-listed] forallk(u, string, imp(visited(u) && has(s.ObjectIndex.uuids, u), 0 <= w[u] && w[u] < len(uuids) && uuids[w[u]] == u && trig(w[u])))
 //@ modifies MapDom[string,*Schema]@db.schemas, MapVal[string,*Schema]@db.schemas, MapCard[string,*Schema]@db.schemas, Async.routineStarted
 //@ allocates Elem[string], iterator.db, iterator.t, iterator.i, iterator.reverse, iterator.uuids, iterator.tdyn
+//@ allocates Async.Enable, Async.Threshold, Async.Timeout, Elem[*indexedField], MapCard[string,*fieldIndex], MapCard[string,uint64], MapCard[uint64,*indexedField], MapCard[uint64,string], MapDom[string,*fieldIndex], MapDom[string,uint64], MapDom[uint64,*indexedField], MapDom[uint64,string], MapVal[string,*fieldIndex], MapVal[string,uint64], MapVal[uint64,*indexedField], MapVal[uint64,string], Schema.AsyncWrites, Schema.Cache, Schema.Compress, Schema.Extension, Schema.Fields, Schema.ObjectIndex, Schema.coherent, Schema.db, Schema.object, Schema.transformers, fieldIndex.Cast, fieldIndex.Constraints.Index, fieldIndex.Constraints.Lower, fieldIndex.Constraints.Unique, fieldIndex.Constraints.Upper, fieldIndex.Index, fieldIndex.Name, fieldIndex.nameSplit, fieldIndex.objectIds, fieldIndex.pos, indexedField.ObjectId, indexedField.Value, objIndex.Fields, objIndex.ObjectIds, objIndex.i, objIndex.otype, objIndex.uuids, objIndex.ver
 
 //@ func (*DB).all
 //@ serves C01 C08 C09 C12 C14
@@ -1252,6 +1277,7 @@ package sod
 //@ loop 1 invariant [current] imp(err == nil && sch.coherent, o != nil && o.uuid == it.uuids[len(out)] && o.content == value(db, sch, it.uuids[len(out)]))
 //@ modifies iterator.i, MapDom[string,*Schema]@db.schemas, MapVal[string,*Schema]@db.schemas, MapCard[string,*Schema]@db.schemas, Async.routineStarted, MapDom[string,*objectMap], MapVal[string,*objectMap], MapCard[string,*objectMap], MapDom[string,Object], MapVal[string,Object], MapCard[string,Object]
 //@ allocates Elem[string], Elem[Object], iterator.db, iterator.t, iterator.i, iterator.reverse, iterator.uuids, iterator.tdyn, Object.content, Object.uuid, Object.stage, objectMap.m, objectMap.RWMutex
+//@ allocates Async.Enable, Async.Threshold, Async.Timeout, Elem[*indexedField], MapCard[string,*fieldIndex], MapCard[string,uint64], MapCard[uint64,*indexedField], MapCard[uint64,string], MapDom[string,*fieldIndex], MapDom[string,uint64], MapDom[uint64,*indexedField], MapDom[uint64,string], MapVal[string,*fieldIndex], MapVal[string,uint64], MapVal[uint64,*indexedField], MapVal[uint64,string], Schema.AsyncWrites, Schema.Cache, Schema.Compress, Schema.Extension, Schema.Fields, Schema.ObjectIndex, Schema.coherent, Schema.db, Schema.object, Schema.transformers, fieldIndex.Cast, fieldIndex.Constraints.Index, fieldIndex.Constraints.Lower, fieldIndex.Constraints.Unique, fieldIndex.Constraints.Upper, fieldIndex.Index, fieldIndex.Name, fieldIndex.nameSplit, fieldIndex.objectIds, fieldIndex.pos, indexedField.ObjectId, indexedField.Value, objIndex.Fields, objIndex.ObjectIds, objIndex.i, objIndex.otype, objIndex.uuids, objIndex.ver
 
 //@ func Assign
 //@ serves C01 C19
@@ -1275,6 +1301,8 @@ package sod
 //@ ensures [C01 Iter.sound] imp(err == nil, it != nil && has(db.schemas, T) && forall(k, 0, len(it.uuids), has(db.schemas[T].ObjectIndex.uuids, it.uuids[k])) && forall(a, 0, len(it.uuids), forall(b, a+1, len(it.uuids), it.uuids[a] != it.uuids[b])))
 //@ ensures [C17 Iter.readonly] FSk == old(FSk) && FSc == old(FSc)
 //@ modifies Ghost.ACQ_H, MapDom[string,*Schema]@db.schemas, MapVal[string,*Schema]@db.schemas, MapCard[string,*Schema]@db.schemas, Async.routineStarted
+//@ allocates Elem[string], iterator.db, iterator.i, iterator.reverse, iterator.t, iterator.tdyn, iterator.uuids
+//@ allocates Async.Enable, Async.Threshold, Async.Timeout, Elem[*indexedField], MapCard[string,*fieldIndex], MapCard[string,uint64], MapCard[uint64,*indexedField], MapCard[uint64,string], MapDom[string,*fieldIndex], MapDom[string,uint64], MapDom[uint64,*indexedField], MapDom[uint64,string], MapVal[string,*fieldIndex], MapVal[string,uint64], MapVal[uint64,*indexedField], MapVal[uint64,string], Schema.AsyncWrites, Schema.Cache, Schema.Compress, Schema.Extension, Schema.Fields, Schema.ObjectIndex, Schema.coherent, Schema.db, Schema.object, Schema.transformers, fieldIndex.Cast, fieldIndex.Constraints.Index, fieldIndex.Constraints.Lower, fieldIndex.Constraints.Unique, fieldIndex.Constraints.Upper, fieldIndex.Index, fieldIndex.Name, fieldIndex.nameSplit, fieldIndex.objectIds, fieldIndex.pos, indexedField.ObjectId, indexedField.Value, objIndex.Fields, objIndex.ObjectIds, objIndex.i, objIndex.otype, objIndex.uuids, objIndex.ver
 
 //@ func (*DB).Count
 //@ serves C01 C08 C09 C12
@@ -1283,6 +1311,8 @@ package sod
 //@ ensures [C08 one-section] ACQ_H == old(ACQ_H) + 1
 //@ ensures [C17 Count.readonly] FSk == old(FSk) && FSc == old(FSc)
 //@ modifies Ghost.ACQ_H, MapDom[string,*Schema]@db.schemas, MapVal[string,*Schema]@db.schemas, MapCard[string,*Schema]@db.schemas, Async.routineStarted
+//@ allocates Elem[string], iterator.db, iterator.i, iterator.reverse, iterator.t, iterator.tdyn, iterator.uuids
+//@ allocates Async.Enable, Async.Threshold, Async.Timeout, Elem[*indexedField], MapCard[string,*fieldIndex], MapCard[string,uint64], MapCard[uint64,*indexedField], MapCard[uint64,string], MapDom[string,*fieldIndex], MapDom[string,uint64], MapDom[uint64,*indexedField], MapDom[uint64,string], MapVal[string,*fieldIndex], MapVal[string,uint64], MapVal[uint64,*indexedField], MapVal[uint64,string], Schema.AsyncWrites, Schema.Cache, Schema.Compress, Schema.Extension, Schema.Fields, Schema.ObjectIndex, Schema.coherent, Schema.db, Schema.object, Schema.transformers, fieldIndex.Cast, fieldIndex.Constraints.Index, fieldIndex.Constraints.Lower, fieldIndex.Constraints.Unique, fieldIndex.Constraints.Upper, fieldIndex.Index, fieldIndex.Name, fieldIndex.nameSplit, fieldIndex.objectIds, fieldIndex.pos, indexedField.ObjectId, indexedField.Value, objIndex.Fields, objIndex.ObjectIds, objIndex.i, objIndex.otype, objIndex.uuids, objIndex.ver
 
 //@ func (*DB).All
 //@ serves C01 C08 C09 C12 C14
@@ -1296,6 +1326,8 @@ package sod
 //@ ensures [C01 All.wf] wfDB(db)
 //@ ensures [C17 All.readonly] FSk == old(FSk) && FSc == old(FSc)
 //@ modifies Ghost.ACQ_H, iterator.i, MapDom[string,*Schema]@db.schemas, MapVal[string,*Schema]@db.schemas, MapCard[string,*Schema]@db.schemas, Async.routineStarted, MapDom[string,*objectMap], MapVal[string,*objectMap], MapCard[string,*objectMap], MapDom[string,Object], MapVal[string,Object], MapCard[string,Object]
+//@ allocates Elem[Object], Elem[string], Object.content, Object.stage, Object.uuid, iterator.db, iterator.reverse, iterator.t, iterator.tdyn, iterator.uuids, objectMap.RWMutex, objectMap.m
+//@ allocates Async.Enable, Async.Threshold, Async.Timeout, Elem[*indexedField], MapCard[string,*fieldIndex], MapCard[string,uint64], MapCard[uint64,*indexedField], MapCard[uint64,string], MapDom[string,*fieldIndex], MapDom[string,uint64], MapDom[uint64,*indexedField], MapDom[uint64,string], MapVal[string,*fieldIndex], MapVal[string,uint64], MapVal[uint64,*indexedField], MapVal[uint64,string], Schema.AsyncWrites, Schema.Cache, Schema.Compress, Schema.Extension, Schema.Fields, Schema.ObjectIndex, Schema.coherent, Schema.db, Schema.object, Schema.transformers, fieldIndex.Cast, fieldIndex.Constraints.Index, fieldIndex.Constraints.Lower, fieldIndex.Constraints.Unique, fieldIndex.Constraints.Upper, fieldIndex.Index, fieldIndex.Name, fieldIndex.nameSplit, fieldIndex.objectIds, fieldIndex.pos, indexedField.ObjectId, indexedField.Value, objIndex.Fields, objIndex.ObjectIds, objIndex.i, objIndex.otype, objIndex.uuids, objIndex.ver
 
 //@ func (*DB).AssignAll
 //@ serves C01 C08 C09
@@ -1305,6 +1337,8 @@ package sod
 //@ ensures [C01 AssignAll.wf] wfDB(db)
 //@ ensures [C17 AssignAll.readonly] FSk == old(FSk) && FSc == old(FSc)
 //@ modifies Ghost.ACQ_H, iterator.i, MapDom[string,*Schema]@db.schemas, MapVal[string,*Schema]@db.schemas, MapCard[string,*Schema]@db.schemas, Async.routineStarted, MapDom[string,*objectMap], MapVal[string,*objectMap], MapCard[string,*objectMap], MapDom[string,Object], MapVal[string,Object], MapCard[string,Object]
+//@ allocates Elem[Object], Elem[string], Object.content, Object.stage, Object.uuid, iterator.db, iterator.reverse, iterator.t, iterator.tdyn, iterator.uuids, objectMap.RWMutex, objectMap.m
+//@ allocates Async.Enable, Async.Threshold, Async.Timeout, Elem[*indexedField], MapCard[string,*fieldIndex], MapCard[string,uint64], MapCard[uint64,*indexedField], MapCard[uint64,string], MapDom[string,*fieldIndex], MapDom[string,uint64], MapDom[uint64,*indexedField], MapDom[uint64,string], MapVal[string,*fieldIndex], MapVal[string,uint64], MapVal[uint64,*indexedField], MapVal[uint64,string], Schema.AsyncWrites, Schema.Cache, Schema.Compress, Schema.Extension, Schema.Fields, Schema.ObjectIndex, Schema.coherent, Schema.db, Schema.object, Schema.transformers, fieldIndex.Cast, fieldIndex.Constraints.Index, fieldIndex.Constraints.Lower, fieldIndex.Constraints.Unique, fieldIndex.Constraints.Upper, fieldIndex.Index, fieldIndex.Name, fieldIndex.nameSplit, fieldIndex.objectIds, fieldIndex.pos, indexedField.ObjectId, indexedField.Value, objIndex.Fields, objIndex.ObjectIds, objIndex.i, objIndex.otype, objIndex.uuids, objIndex.ver
 
 // ---- batch insertion (C07) -------------------------------------------------------
 
@@ -1371,6 +1405,7 @@ package sod
 //@ loop 2 invariant [objects] forall(k, 0, len(objects), objects[k] == old(objects[k]) && callerOwned(db, objects[k]) && objects[k].stage == 3 && dyntype(objects[k]) == schema.ObjectIndex.otype && objects[k] != nil)
 //@ loop 2 invariant [views] imp(rangeindex == -1 && old(has(db.schemas, T)), viewsSame(db, schema))
 //@ modifies Ghost.ACQ_H, Object.content, Object.stage, Object.uuid, Ghost.FSk, Ghost.FSc, Async.routineStarted, MapDom[string,*Schema]@db.schemas, MapVal[string,*Schema]@db.schemas, MapCard[string,*Schema]@db.schemas, MapDom[string,*objectMap], MapVal[string,*objectMap], MapCard[string,*objectMap], MapDom[string,Object], MapVal[string,Object], MapCard[string,Object], objIndex.i, objIndex.ver, MapDom[string,uint64], MapVal[string,uint64], MapCard[string,uint64], MapDom[uint64,string], MapVal[uint64,string], MapCard[uint64,string], fieldIndex.Index, fieldIndex.pos, MapDom[uint64,*indexedField], MapVal[uint64,*indexedField], MapCard[uint64,*indexedField], Elem[*indexedField]
+//@ allocates Async.Enable, Async.Threshold, Async.Timeout, Elem[interface{}], Elem[string], Elem[uint8], MapCard[string,*fieldIndex], MapDom[string,*fieldIndex], MapVal[string,*fieldIndex], Schema.AsyncWrites, Schema.Cache, Schema.Compress, Schema.Extension, Schema.Fields, Schema.ObjectIndex, Schema.coherent, Schema.db, Schema.object, Schema.transformers, fieldIndex.Cast, fieldIndex.Constraints.Index, fieldIndex.Constraints.Lower, fieldIndex.Constraints.Unique, fieldIndex.Constraints.Upper, fieldIndex.Name, fieldIndex.nameSplit, fieldIndex.objectIds, indexedField.ObjectId, indexedField.Value, objIndex.Fields, objIndex.ObjectIds, objIndex.base, objIndex.otype, objIndex.uuids, objectMap.RWMutex, objectMap.m
 
 // ---- flushing (C10) -------------------------------------------------------------------
 
@@ -1386,6 +1421,7 @@ package sod
 //@ ensures [C01 wo.others] db.schemas == old(db.schemas) && forallk(t, string, imp(t != T, has(db.schemas, t) == old(has(db.schemas, t)) && db.schemas[t] == old(db.schemas[t]))) && imp(old(has(db.schemas, T)), has(db.schemas, T) && db.schemas[T] == old(db.schemas[T]))
 //@ modifies Ghost.FSk, Ghost.FSc, MapDom[string,*Schema]@db.schemas, MapVal[string,*Schema]@db.schemas, MapCard[string,*Schema]@db.schemas, Async.routineStarted
 //@ allocates Elem[uint8]
+//@ allocates Async.Enable, Async.Threshold, Async.Timeout, Elem[*indexedField], Elem[string], MapCard[string,*fieldIndex], MapCard[string,uint64], MapCard[uint64,*indexedField], MapCard[uint64,string], MapDom[string,*fieldIndex], MapDom[string,uint64], MapDom[uint64,*indexedField], MapDom[uint64,string], MapVal[string,*fieldIndex], MapVal[string,uint64], MapVal[uint64,*indexedField], MapVal[uint64,string], Schema.AsyncWrites, Schema.Cache, Schema.Compress, Schema.Extension, Schema.Fields, Schema.ObjectIndex, Schema.coherent, Schema.db, Schema.object, Schema.transformers, fieldIndex.Cast, fieldIndex.Constraints.Index, fieldIndex.Constraints.Lower, fieldIndex.Constraints.Unique, fieldIndex.Constraints.Upper, fieldIndex.Index, fieldIndex.Name, fieldIndex.nameSplit, fieldIndex.objectIds, fieldIndex.pos, indexedField.ObjectId, indexedField.Value, objIndex.Fields, objIndex.ObjectIds, objIndex.i, objIndex.otype, objIndex.uuids, objIndex.ver
 
 // The two flush loops (objectMap.flush, objectStore.flush) iterate over a map while deleting from it and write
 // one file per object: their contracts are assumed for now (DESIGN.md C10), the callers are verified against them.
@@ -1438,6 +1474,7 @@ package sod
 //@ ensures [C01 fac.wf] wfDB(db)
 //@ ensures [fac.table] forallk(t, string, imp(has(db.schemas, t), t == T))
 //@ modifies Ghost.FSk, Ghost.FSc, MapDom[string,Object], MapCard[string,Object], Async.routineStarted, MapDom[string,*Schema]@db.schemas, MapVal[string,*Schema]@db.schemas, MapCard[string,*Schema]@db.schemas
+//@ allocates Async.Enable, Async.Threshold, Async.Timeout, Elem[*indexedField], Elem[string], Elem[uint8], MapCard[string,*fieldIndex], MapCard[string,uint64], MapCard[uint64,*indexedField], MapCard[uint64,string], MapDom[string,*fieldIndex], MapDom[string,uint64], MapDom[uint64,*indexedField], MapDom[uint64,string], MapVal[string,*fieldIndex], MapVal[string,uint64], MapVal[uint64,*indexedField], MapVal[uint64,string], Schema.AsyncWrites, Schema.Cache, Schema.Compress, Schema.Extension, Schema.Fields, Schema.ObjectIndex, Schema.coherent, Schema.db, Schema.object, Schema.transformers, fieldIndex.Cast, fieldIndex.Constraints.Index, fieldIndex.Constraints.Lower, fieldIndex.Constraints.Unique, fieldIndex.Constraints.Upper, fieldIndex.Index, fieldIndex.Name, fieldIndex.nameSplit, fieldIndex.objectIds, fieldIndex.pos, indexedField.ObjectId, indexedField.Value, objIndex.Fields, objIndex.ObjectIds, objIndex.i, objIndex.otype, objIndex.uuids, objIndex.ver
 
 //@ func (*DB).Close
 //@ serves C04 C10 C08 C09
@@ -1454,6 +1491,7 @@ package sod
 //@ loop 1 invariant [flushed] imp(last == nil, forallk(t, string, imp(has(db.schemas, t), forallk(u, string, !pend(db, db.schemas[t], u)))))
 //@ loop 1 invariant [committed] imp(last == nil, forallk(t, string, imp(has(db.schemas, t) && visited(t), committed(db, db.schemas[t]))))
 //@ modifies Ghost.ACQ_H, Ghost.FSk, Ghost.FSc, MapDom[string,Object], MapCard[string,Object], Async.routineStarted, MapDom[string,*Schema]@db.schemas, MapVal[string,*Schema]@db.schemas, MapCard[string,*Schema]@db.schemas
+//@ allocates Async.Enable, Async.Threshold, Async.Timeout, Elem[*indexedField], Elem[string], Elem[uint8], MapCard[string,*fieldIndex], MapCard[string,uint64], MapCard[uint64,*indexedField], MapCard[uint64,string], MapDom[string,*fieldIndex], MapDom[string,uint64], MapDom[uint64,*indexedField], MapDom[uint64,string], MapVal[string,*fieldIndex], MapVal[string,uint64], MapVal[uint64,*indexedField], MapVal[uint64,string], Schema.AsyncWrites, Schema.Cache, Schema.Compress, Schema.Extension, Schema.Fields, Schema.ObjectIndex, Schema.coherent, Schema.db, Schema.object, Schema.transformers, fieldIndex.Cast, fieldIndex.Constraints.Index, fieldIndex.Constraints.Lower, fieldIndex.Constraints.Unique, fieldIndex.Constraints.Upper, fieldIndex.Index, fieldIndex.Name, fieldIndex.nameSplit, fieldIndex.objectIds, fieldIndex.pos, indexedField.ObjectId, indexedField.Value, objIndex.Fields, objIndex.ObjectIds, objIndex.i, objIndex.otype, objIndex.uuids, objIndex.ver
 
 // ---- integrity control (C11) ---------------------------------------------------------------
 
@@ -1592,6 +1630,7 @@ package sod
 //@ loop 2 invariant [frame] preserved(Cell[*DB], Cell[*Schema], Cell[time.Duration], Schema.object, Schema.AsyncWrites)
 //@ loop 2 invariant [state] lockFree() && wfDB(*db) && *s != nil && allocated(*s) && (*s).object != nil && imp((*s).AsyncWrites != nil, allocated((*s).AsyncWrites)) && forallk(t, string, imp(has((*db).schemas, t), t == stypeOf(dyntype((*s).object))))
 //@ modifies Ghost.CTX, Ghost.ACQ_H, Ghost.FSk, Ghost.FSc, MapDom[string,Object], MapCard[string,Object], Async.routineStarted, MapDom[string,*Schema], MapVal[string,*Schema], MapCard[string,*Schema]
+//@ allocates Async.Enable, Async.Threshold, Async.Timeout, Elem[*indexedField], Elem[string], Elem[uint8], MapCard[string,*fieldIndex], MapCard[string,uint64], MapCard[uint64,*indexedField], MapCard[uint64,string], MapDom[string,*fieldIndex], MapDom[string,uint64], MapDom[uint64,*indexedField], MapDom[uint64,string], MapVal[string,*fieldIndex], MapVal[string,uint64], MapVal[uint64,*indexedField], MapVal[uint64,string], Schema.AsyncWrites, Schema.Cache, Schema.Compress, Schema.Extension, Schema.Fields, Schema.ObjectIndex, Schema.coherent, Schema.db, Schema.object, Schema.transformers, fieldIndex.Cast, fieldIndex.Constraints.Index, fieldIndex.Constraints.Lower, fieldIndex.Constraints.Unique, fieldIndex.Constraints.Upper, fieldIndex.Index, fieldIndex.Name, fieldIndex.nameSplit, fieldIndex.objectIds, fieldIndex.pos, indexedField.ObjectId, indexedField.Value, objIndex.Fields, objIndex.ObjectIds, objIndex.i, objIndex.otype, objIndex.uuids, objIndex.ver
 
 // ---- search evaluation (C02, C12, C19) ----------------------------------------------------
 
@@ -1650,7 +1689,7 @@ package sod
 //@ ensures [C02 sa.sound] imp(result.err == nil && sch.coherent, forall(y, 0, len(result.fields), has(idx.ObjectIds, result.fields[y].ObjectId) && result.fields[y].Value == norm(proj(value(db, sch, idx.ObjectIds[result.fields[y].ObjectId]), field)) && opmatch(operator, result.fields[y].Value, k) && imp(constrain != nil, exists(x, 0, len(constrain), constrain[x].ObjectId == result.fields[y].ObjectId))))
 //@ ensures [C02 sa.complete] imp(result.err == nil && sch.coherent, forallk(u, string, imp(has(idx.uuids, u) && opmatch(operator, norm(proj(value(db, sch, u), field)), k) && (constrain == nil || exists(x, 0, len(constrain), constrain[x].ObjectId == idx.uuids[u])), exists(y, 0, len(result.fields), result.fields[y].ObjectId == idx.uuids[u]))))
 //@ ensures [C02 sa.distinct] imp(result.err == nil && sch.coherent, forall(y, 0, len(result.fields), forall(z, y+1, len(result.fields), result.fields[y].ObjectId != result.fields[z].ObjectId)))
-//@ ensures [C20 sa.fresh] imp(result.err == nil, fresh(arr(result.fields)))
+//@ ensures [C20 sa.fresh] (fresh(arr(result.fields)) || cap(result.fields) == 0) && imp(result.err == nil, fresh(arr(result.fields)))
 //@ ensures [C01 sa.wf] wfDB(db) && has(db.schemas, T) && db.schemas[T] == sch && sch.ObjectIndex == idx
 //@ ensures [C17 sa.readonly] FSk == old(FSk) && FSc == old(FSc) && asyncwSame(db)
 //@ ensures [C01 sa.others] db.schemas == old(db.schemas) && forallk(t, string, has(db.schemas, t) == old(has(db.schemas, t)) && db.schemas[t] == old(db.schemas[t]))
@@ -1723,11 +1762,13 @@ package sod
 //@ ensures [C02 C12 search.complete] imp(result.err == nil && s.coherent, forallk(u, string, imp(has(s.ObjectIndex.uuids, u) && omatch(db, s, u, field, operator, pv) && (constrain == nil || exists(x, 0, len(constrain), constrain[x].ObjectId == s.ObjectIndex.uuids[u])), exists(y, 0, len(result.fields), result.fields[y].ObjectId == s.ObjectIndex.uuids[u]))))
 //@ ensures [C02 search.distinct] imp(result.err == nil && s.coherent, forall(y, 0, len(result.fields), forall(z, y+1, len(result.fields), result.fields[y].ObjectId != result.fields[z].ObjectId)))
 //@ ensures [C13 search.order] imp(result.err == nil && has(s.ObjectIndex.Fields, field), forall(y, 0, len(result.fields), forall(z, y+1, len(result.fields), !klt(result.fields[y].Value, result.fields[z].Value))))
-//@ ensures [C20 search.fresh] imp(result.err == nil, fresh(arr(result.fields)))
+//@ ensures [C20 search.fresh] (fresh(arr(result.fields)) || cap(result.fields) == 0) && imp(result.err == nil, fresh(arr(result.fields)))
+//@ ensures [C20 search.separate] imp(has(db.schemas, T), forallk(f, string, imp(has(db.schemas[T].ObjectIndex.Fields, f), cap(result.fields) == 0 || arr(db.schemas[T].ObjectIndex.Fields[f].Index) != arr(result.fields))))
 //@ ensures [C01 search.wf] wfDB(db)
 //@ ensures [C17 search.readonly] FSk == old(FSk) && FSc == old(FSc) && asyncwSame(db)
 //@ ensures [C01 search.others] db.schemas == old(db.schemas) && forallk(t, string, imp(t != T, has(db.schemas, t) == old(has(db.schemas, t)) && db.schemas[t] == old(db.schemas[t]))) && imp(old(has(db.schemas, T)), has(db.schemas, T) && db.schemas[T] == old(db.schemas[T]))
 //@ modifies iterator.i, MapDom[string,*Schema]@db.schemas, MapVal[string,*Schema]@db.schemas, MapCard[string,*Schema]@db.schemas, Async.routineStarted, MapDom[string,*objectMap]@db.cache.m, MapVal[string,*objectMap]@db.cache.m, MapCard[string,*objectMap]@db.cache.m, MapDom[string,Object], MapVal[string,Object], MapCard[string,Object]
+//@ allocates Async.Enable, Async.Threshold, Async.Timeout, Elem[*indexedField], Elem[interface{}], Elem[string], MapCard[string,*fieldIndex], MapCard[string,uint64], MapCard[uint64,*indexedField], MapCard[uint64,string], MapDom[string,*fieldIndex], MapDom[string,uint64], MapDom[uint64,*indexedField], MapDom[uint64,string], MapVal[string,*fieldIndex], MapVal[string,uint64], MapVal[uint64,*indexedField], MapVal[uint64,string], Object.content, Object.stage, Object.uuid, Schema.AsyncWrites, Schema.Cache, Schema.Compress, Schema.Extension, Schema.Fields, Schema.ObjectIndex, Schema.coherent, Schema.db, Schema.object, Schema.transformers, Search.db, Search.err, Search.fields, Search.limit, Search.object, Search.reverse, fieldIndex.Cast, fieldIndex.Constraints.Index, fieldIndex.Constraints.Lower, fieldIndex.Constraints.Unique, fieldIndex.Constraints.Upper, fieldIndex.Index, fieldIndex.Name, fieldIndex.nameSplit, fieldIndex.objectIds, fieldIndex.pos, indexedField.ObjectId, indexedField.Value, iterator.db, iterator.reverse, iterator.t, iterator.tdyn, iterator.uuids, objIndex.Fields, objIndex.ObjectIds, objIndex.i, objIndex.otype, objIndex.uuids, objIndex.ver, objectMap.RWMutex, objectMap.m
 
 //@ func (*DB).Search
 //@ serves C02 C08 C09 C12 C13 C16 C19 C20
@@ -1750,6 +1791,7 @@ package sod
 //@ ensures [C01 Search.wf] wfDB(db)
 //@ ensures [C17 Search.readonly] FSk == old(FSk) && FSc == old(FSc) && asyncwSame(db)
 //@ modifies Ghost.ACQ_H, iterator.i, MapDom[string,*Schema]@db.schemas, MapVal[string,*Schema]@db.schemas, MapCard[string,*Schema]@db.schemas, Async.routineStarted, MapDom[string,*objectMap]@db.cache.m, MapVal[string,*objectMap]@db.cache.m, MapCard[string,*objectMap]@db.cache.m, MapDom[string,Object], MapVal[string,Object], MapCard[string,Object]
+//@ allocates Async.Enable, Async.Threshold, Async.Timeout, Elem[*indexedField], Elem[interface{}], Elem[string], MapCard[string,*fieldIndex], MapCard[string,uint64], MapCard[uint64,*indexedField], MapCard[uint64,string], MapDom[string,*fieldIndex], MapDom[string,uint64], MapDom[uint64,*indexedField], MapDom[uint64,string], MapVal[string,*fieldIndex], MapVal[string,uint64], MapVal[uint64,*indexedField], MapVal[uint64,string], Object.content, Object.stage, Object.uuid, Schema.AsyncWrites, Schema.Cache, Schema.Compress, Schema.Extension, Schema.Fields, Schema.ObjectIndex, Schema.coherent, Schema.db, Schema.object, Schema.transformers, Search.db, Search.err, Search.fields, Search.limit, Search.object, Search.reverse, fieldIndex.Cast, fieldIndex.Constraints.Index, fieldIndex.Constraints.Lower, fieldIndex.Constraints.Unique, fieldIndex.Constraints.Upper, fieldIndex.Index, fieldIndex.Name, fieldIndex.nameSplit, fieldIndex.objectIds, fieldIndex.pos, indexedField.ObjectId, indexedField.Value, iterator.db, iterator.reverse, iterator.t, iterator.tdyn, iterator.uuids, objIndex.Fields, objIndex.ObjectIds, objIndex.i, objIndex.otype, objIndex.uuids, objIndex.ver, objectMap.RWMutex, objectMap.m
 
 //@ func (*Search).And
 //@ serves C02 C08 C09 C12 C13 C16 C19 C20
@@ -1772,6 +1814,7 @@ package sod
 //@ ensures [C01 And.wf] imp(e0 == nil, wfDB(db))
 //@ ensures [C17 And.readonly] FSk == old(FSk) && FSc == old(FSc)
 //@ modifies Ghost.ACQ_H, iterator.i, MapDom[string,*Schema]@s.db.schemas, MapVal[string,*Schema]@s.db.schemas, MapCard[string,*Schema]@s.db.schemas, Async.routineStarted, MapDom[string,*objectMap]@s.db.cache.m, MapVal[string,*objectMap]@s.db.cache.m, MapCard[string,*objectMap]@s.db.cache.m, MapDom[string,Object], MapVal[string,Object], MapCard[string,Object]
+//@ allocates Async.Enable, Async.Threshold, Async.Timeout, Elem[*indexedField], Elem[interface{}], Elem[string], MapCard[string,*fieldIndex], MapCard[string,uint64], MapCard[uint64,*indexedField], MapCard[uint64,string], MapDom[string,*fieldIndex], MapDom[string,uint64], MapDom[uint64,*indexedField], MapDom[uint64,string], MapVal[string,*fieldIndex], MapVal[string,uint64], MapVal[uint64,*indexedField], MapVal[uint64,string], Object.content, Object.stage, Object.uuid, Schema.AsyncWrites, Schema.Cache, Schema.Compress, Schema.Extension, Schema.Fields, Schema.ObjectIndex, Schema.coherent, Schema.db, Schema.object, Schema.transformers, Search.db, Search.err, Search.fields, Search.limit, Search.object, Search.reverse, fieldIndex.Cast, fieldIndex.Constraints.Index, fieldIndex.Constraints.Lower, fieldIndex.Constraints.Unique, fieldIndex.Constraints.Upper, fieldIndex.Index, fieldIndex.Name, fieldIndex.nameSplit, fieldIndex.objectIds, fieldIndex.pos, indexedField.ObjectId, indexedField.Value, iterator.db, iterator.reverse, iterator.t, iterator.tdyn, iterator.uuids, objIndex.Fields, objIndex.ObjectIds, objIndex.i, objIndex.otype, objIndex.uuids, objIndex.ver, objectMap.RWMutex, objectMap.m
 
 //@ func (*Search).Or
 //@ serves C02 C08 C09 C12 C16 C19 C20
@@ -1805,6 +1848,8 @@ package sod
 //@ loop 1 decreases len(new.fields) - rangeindex
 //@ loop 2 snap S2
 //@ loop 2 let n0 int := len(new.fields)
+//@ loop 2 let A0 int := arr(new.fields)
+//@ loop 2 let C0 int := cap(new.fields)
 //@ loop 2 ghost src garray[int]int
 //@ loop 2 ghost dst garray[int]int
 //@ loop 2 ghost nf int := len(new.fields)
@@ -1813,7 +1858,8 @@ package sod
 //@ loop 2 update dst x := ite(x == rangeindex+1, ite(len(new.fields) > nf, len(new.fields) - 1, w[s.fields[rangeindex+1].ObjectId]), dst[x])
 //@ loop 2 invariant [bounds] (-1 <= rangeindex && rangeindex < len(s.fields)) || (rangeindex == -1 && len(s.fields) == 0)
 //@ loop 2 invariant [frame] preserved(Elem[*indexedField], Search.fields, Search.err, Search.db, Search.object, Search.limit, Search.reverse) && s.fields == f0 && new != s
-//@ loop 2 invariant [new] new != nil && fresh(new) && fresh(arr(new.fields)) && new.err == nil && nf == len(new.fields) && n0 <= len(new.fields) && len(new.fields) <= n0 + rangeindex + 1 && new.db == db && new.object == s.object
+//@ loop 2 invariant [new] new != nil && fresh(new) && (fresh(arr(new.fields)) || cap(new.fields) == 0) && new.err == since(S2, old(new.err)) && nf == len(new.fields) && n0 <= len(new.fields) && len(new.fields) <= n0 + rangeindex + 1 && new.db == db && imp(new.err == nil, new.object == s.object)
+//@ loop 2 invariant [elems] since(S2, preservedAt(Elem[*indexedField], ite(C0 > 0, A0, -1))) && imp(new.err == nil, fresh(arr(new.fields))) && ((arr(new.fields) == A0 && cap(new.fields) == C0) || since(S2, fresh(arr(new.fields))))
 //@ loop 2 invariant [prefix] forall(y, 0, n0, new.fields[y] == since(S2, old(new.fields[y])))
 //@ loop 2 invariant [tail] forall(y, n0, len(new.fields), 0 <= src[y] && src[y] <= rangeindex && new.fields[y] == s.fields[src[y]] && !has(marked, new.fields[y].ObjectId))
 //@ loop 2 invariant [tail-mono] forall(y, n0, len(new.fields), forall(z, y+1, len(new.fields), touch(new.fields[y]) && touch(new.fields[z]) && src[y] < src[z]))
@@ -1821,3 +1867,4 @@ package sod
 //@ loop 2 decreases len(s.fields) - rangeindex
 //@ modifies Ghost.ACQ_H, iterator.i, MapDom[string,*Schema]@s.db.schemas, MapVal[string,*Schema]@s.db.schemas, MapCard[string,*Schema]@s.db.schemas, Async.routineStarted, MapDom[string,*objectMap]@s.db.cache.m, MapVal[string,*objectMap]@s.db.cache.m, MapCard[string,*objectMap]@s.db.cache.m, MapDom[string,Object], MapVal[string,Object], MapCard[string,Object]
 //@ allocates Search.db, Search.object, Search.fields, Search.limit, Search.reverse, Search.err, Elem[*indexedField], MapDom[uint64,bool], MapVal[uint64,bool], MapCard[uint64,bool]
+//@ allocates Async.Enable, Async.Threshold, Async.Timeout, Elem[interface{}], Elem[string], MapCard[string,*fieldIndex], MapCard[string,uint64], MapCard[uint64,*indexedField], MapCard[uint64,string], MapDom[string,*fieldIndex], MapDom[string,uint64], MapDom[uint64,*indexedField], MapDom[uint64,string], MapVal[string,*fieldIndex], MapVal[string,uint64], MapVal[uint64,*indexedField], MapVal[uint64,string], Object.content, Object.stage, Object.uuid, Schema.AsyncWrites, Schema.Cache, Schema.Compress, Schema.Extension, Schema.Fields, Schema.ObjectIndex, Schema.coherent, Schema.db, Schema.object, Schema.transformers, fieldIndex.Cast, fieldIndex.Constraints.Index, fieldIndex.Constraints.Lower, fieldIndex.Constraints.Unique, fieldIndex.Constraints.Upper, fieldIndex.Index, fieldIndex.Name, fieldIndex.nameSplit, fieldIndex.objectIds, fieldIndex.pos, indexedField.ObjectId, indexedField.Value, iterator.db, iterator.reverse, iterator.t, iterator.tdyn, iterator.uuids, objIndex.Fields, objIndex.ObjectIds, objIndex.i, objIndex.otype, objIndex.uuids, objIndex.ver, objectMap.RWMutex, objectMap.m
